@@ -318,7 +318,21 @@ class BaseWSGIServer(wasyncore.dispatcher):
                 self.logger.warning("server accept() threw an exception", exc_info=True)
             return
         addr = self.fix_addr(addr)
-        self.channel_class(self, conn, addr, self.adj, map=self._map)
+        try:
+            self.channel_class(self, conn, addr, self.adj, map=self._map)
+        except OSError:
+            # The remote may be gone already, then querying or changing the
+            # options of the new socket fails while the channel is being set
+            # up. That must not take down the listening socket (which is what
+            # happens if the exception reaches handle_error).
+            if self.adj.log_socket_errors:
+                self.logger.warning(
+                    "server could not set up a new connection", exc_info=True
+                )
+            try:
+                conn.close()
+            except OSError:
+                pass
 
     def run(self):
         try:
